@@ -100,6 +100,7 @@ theorem inv_step (s : St) (a : Act) (inv : Inv s) (ha : a.atomic = true) (he : e
       · exact inv.noreg _ h
   | load t => simp [Act.atomic] at ha
   | store t => simp [Act.atomic] at ha
+  | leaveForget t => simp [Act.atomic] at ha
   | request => exact ⟨inv.count, inv.noreg⟩
   | resize => exact ⟨inv.count, inv.noreg⟩
 
@@ -140,5 +141,99 @@ theorem thOf_two_default (t : Nat) : thOf t [({} : Th), {}] = {} := by
 to leave, and the resize waits for a counter that no transition will ever change -/
 theorem stuckState_dead (a : Act) : enabled stuckState a = false := by
   cases a <;> simp [enabled, stuckState, thOf_two_default]
+
+/-! ### per-thread nesting depth -/
+
+theorem thOf_setTh_same : ∀ (t : Nat) (y : Th) (l : List Th), t < l.length → thOf t (setTh t y l) = y
+  | _, _, [], h => by simp at h
+  | 0, _, _ :: _, _ => rfl
+  | t+1, y, _ :: r, h => by
+    simp only [setTh, thOf]
+    exact thOf_setTh_same t y r (by simpa using h)
+
+theorem thOf_setTh_ne : ∀ (t u : Nat) (y : Th) (l : List Th), t ≠ u → thOf t (setTh u y l) = thOf t l
+  | _, _, _, [], _ => by simp [setTh]
+  | 0, 0, _, _ :: _, h => absurd rfl h
+  | 0, u+1, _, _ :: _, _ => rfl
+  | t+1, 0, _, _ :: _, _ => rfl
+  | t+1, u+1, y, _ :: r, h => by
+    simp only [setTh, thOf]
+    exact thOf_setTh_ne t u y r (by omega)
+
+theorem length_step (s : St) (a : Act) : (step s a).ths.length = s.ths.length := by
+  cases a <;> simp only [step, length_setTh]
+  case store t =>
+    cases (thOf t s.ths).reg <;> simp [length_setTh]
+
+theorem length_run : ∀ (acts : List Act) (s s' : St), runChecked s acts = some s' → s'.ths.length = s.ths.length
+  | [], s, s', h => by simp only [runChecked, Option.some.injEq] at h; rw [← h]
+  | a :: r, s, s', h => by
+    simp only [runChecked] at h
+    by_cases he : enabled s a = true
+    · simp only [he, if_true] at h
+      rw [length_run r _ _ h, length_step]
+    · simp [he] at h
+
+/-- one atomic step moves the depth of thread `t` exactly as the schedule says -/
+theorem depth_step (s : St) (a : Act) (t : Nat) (ha : a.atomic = true) (he : enabled s a = true) :
+    depth (step s a) t = opensFrom t (depth s t) [a] := by
+  cases a with
+  | enter u =>
+    simp only [enabled, Bool.and_eq_true, decide_eq_true_eq] at he
+    by_cases hu : u = t
+    · subst hu
+      simp [depth, step, opensFrom, thOf_setTh_same _ _ _ he.1]
+    · have : t ≠ u := fun h => hu h.symm
+      simp [depth, step, opensFrom, hu, thOf_setTh_ne _ _ _ _ this]
+  | leave u =>
+    simp only [enabled, Bool.and_eq_true, decide_eq_true_eq] at he
+    by_cases hu : u = t
+    · subst hu
+      simp [depth, step, opensFrom, thOf_setTh_same _ _ _ he.1.1]
+    · have : t ≠ u := fun h => hu h.symm
+      simp [depth, step, opensFrom, hu, thOf_setTh_ne _ _ _ _ this]
+  | load u => simp [Act.atomic] at ha
+  | store u => simp [Act.atomic] at ha
+  | leaveForget u => simp [Act.atomic] at ha
+  | request => simp [depth, step, opensFrom]
+  | resize => simp [depth, step, opensFrom]
+
+theorem opensFrom_cons (t k : Nat) (a : Act) (r : List Act) :
+    opensFrom t k (a :: r) = opensFrom t (opensFrom t k [a]) r := by
+  cases a <;> simp [opensFrom]
+
+theorem depth_run : ∀ (acts : List Act) (s s' : St) (t : Nat), (∀ a ∈ acts, a.atomic = true) →
+    runChecked s acts = some s' → depth s' t = opensFrom t (depth s t) acts
+  | [], s, s', t, _, h => by
+    simp only [runChecked, Option.some.injEq] at h
+    rw [← h]; rfl
+  | a :: r, s, s', t, hat, h => by
+    simp only [runChecked] at h
+    by_cases he : enabled s a = true
+    · simp only [he, if_true] at h
+      rw [depth_run r (step s a) s' t (fun b hb => hat b (by simp [hb])) h,
+        depth_step s a t (hat a (by simp)) he, ← opensFrom_cons]
+    · simp [he] at h
+
+theorem depth_init (n t : Nat) : depth (init n) t = 0 := by
+  simp only [depth, init]
+  induction n generalizing t with
+  | zero => simp [thOf]
+  | succ n ih =>
+    cases t with
+    | zero => rfl
+    | succ t => simpa [List.replicate_succ, thOf] using ih t
+
+/-- some thread holds a transaction when the total is positive -/
+theorem exists_pos_of_total_pos : ∀ (l : List Th), 0 < total l → ∃ t, t < l.length ∧ (thOf t l).opened > 0
+  | [], h => by simp [total] at h
+  | x :: r, h => by
+    by_cases hx : x.opened > 0
+    · exact ⟨0, by simp, by simpa [thOf] using hx⟩
+    · have hr : 0 < total r := by
+        simp only [total, List.map_cons, List.sum_cons] at h ⊢
+        omega
+      obtain ⟨t, ht, hp⟩ := exists_pos_of_total_pos r hr
+      exact ⟨t + 1, by simpa using ht, by simpa [thOf] using hp⟩
 
 end GV.TxCount
